@@ -78,3 +78,26 @@ Fixpoint fcl_allclose (rtol atol : float) (a b : list FC) : bool :=
   end.
 Definition fcll_allclose (rtol atol : float) (a b : FM) : bool :=
   Nat.eqb (length a) (length b) && fcl_allclose rtol atol (concat a) (concat b).
+
+(* ---- num_cnots_required, kak_vector, extract_right_diag, two_qubit_matrix_to_cz_isometry ---- *)
+(* Xform/KakCount.v cz_count_ok on binary64 coefficients (radians): distances from the origin, the CNOT vertex and the face z = 0.
+   Written with moduli, so a point a few atol outside the chamber (x just above pi/4, y just below 0) is judged like its mirror image *)
+Definition cz_count_ok_f (lo m0 m x y z : float) (n : nat) : bool :=
+  let d0 := fmax (abs x) (fmax (abs y) (abs z)) in
+  let d1 := fmax (abs (x - fpi4)) (fmax (abs y) (abs z)) in
+  let d2 := abs z in
+  if PrimFloat.leb d0 lo then Nat.eqb n 0
+  else (Nat.eqb n 0 && PrimFloat.leb d0 m0) ||
+       (if PrimFloat.leb d1 lo then Nat.eqb n 1
+        else (Nat.eqb n 1 && PrimFloat.leb d1 m) ||
+             (if PrimFloat.leb d2 lo then Nat.eqb n 2
+              else (Nat.eqb n 2 && PrimFloat.leb d2 m) || Nat.eqb n 3)).
+(* a KAK vector (kx, ky, kz) against certified canonical coefficients (x, y, z) of the same unitary: canonical itself, and equal to them
+   or to their mirror image (pi/2 - x, y, -z) — the same class; both lie in the chamber only when x is within tolerance of pi/4 *)
+Definition close3_f (tol a b c x y z : float) : bool := f_close tol a x && f_close tol b y && f_close tol c z.
+Definition kak_vector_ok_f (atol tol kx ky kz x y z : float) : bool :=
+  kak_canonical_f atol kx ky kz && (close3_f tol kx ky kz x y z || close3_f tol kx ky kz (2 * fpi4 - x) y (- z)).
+(* an isometry from the states with the first qubit in |0>: the first two columns (basis states |00>, |01>) agree up to one phase *)
+Definition first_columns (k : nat) (m : FM) : list FC := concat (firstn k (mtranspose FOps m)).
+Definition isometry_phase_f (tol : float) (sh : list nat) (ops : list (gop (K:=FC))) (U : FM) : bool :=
+  fcl_close_phase tol (first_columns 2 (circ_unitary FOps sh ops)) (first_columns 2 U).
